@@ -12,7 +12,8 @@ RULE = ("the full decision table join kind (inner_join, join, full_join) x expec
         "{0,1,2} (1 key column) and <=2 rows over {0,1} (2 key columns) [thorough: <=4 over {0,1,2}], plus random larger "
         "lists with a chosen side unique. Every call with a strict expectation is repeated with many_to_many and the two "
         "results must be identical when the strict call returns. non-trivial = both sides non-empty and a duplicate key "
-        "on some side")
+        "on some side"
+        ' Further families (joincommon.extra_cases): key lists in another order than the stored columns / with a column listed twice / mixing names, own vectors and external copies, right key columns stored in another order; one table joined with itself on DIFFERENT key columns; two tables keyed by the same external key vector objects; a join, then columns renamed through a view or rename_column (by the new name, by the old name = refused, names exchanged with a payload column), payload cells edited in place or the key column replaced by attribute assignment, then the judged join; sides and single buckets beyond 1000 rows; wide tables with interleaved key columns; key names that are no identifiers or read alike (NFC/NFD, trailing blank, case); zero-row sides without any column; datetime key columns holding raw dates. expect arguments that are not strings (None, 0, 1, True, bytes, tuple, list, float) must be rejected.')
 ASSUMPTIONS = ["as for C09: hashable ladder-type keys, validation mirrored and not judged, key equality supplied by Python ==/hash"]
 TRUSTED = ["the ast extraction of the `expect` membership tuples (extract_consts.section_joins)"]
 BUDGET_S = {"quick": 22, "thorough": 240}
@@ -50,6 +51,9 @@ def generate(rng, tier):
     yield from _table([0, 1, 2], 1, 3, 3)
     yield from _table([0, 1], 2, 2, 2)
     yield from _table([-1, -2], 1, 2, 2, "collide")      # hash-equal distinct keys
+    # further shapes / states (see joincommon.extra_cases) under every kind and expectation, and expect arguments that are no strings
+    yield from jc.extra_cases(rng, "table", ["inner", "left", "full"], jc.EXPECTS, mm=True, scale=1 if not thorough else 10,
+                              expect_objects=True)
     if not thorough:
         yield from _random(rng, 25000)
         return
